@@ -17,6 +17,8 @@
 (*                   k=kw or **{"k": kw}.  Event <site><v>k<kv>.           *)
 (*                   recurse / own name return v + 10 + 3 kv,           *)
 (*                   call_next v + 100 + 3 kv                           *)
+(*   CX(site,val)    site(x, k=(x := val)): a bare-name argument that a     *)
+(*                   later argument rebinds - the name is read first        *)
 (*   Add If And Or   arithmetic, conditional expression, boolean operators *)
 (*   LC(elt,items,cond,gen)  list comprehension / generator expression     *)
 (*                   over a list display; value = sum of the elements      *)
@@ -61,6 +63,12 @@ Eval(t, x) ==
               IF k.err # 0 THEN [ev |-> a.ev \o k.ev, val |-> 0, err |-> k.err]
               ELSE Ok(a.ev \o k.ev \o <<(IF t.site = "N" THEN "N" ELSE "R") \o ToString(a.val) \o "k" \o ToString(k.val)>>,
                       a.val + (IF t.site = "N" THEN 100 ELSE 10) + 3 * k.val)
+    [] t.n = "CX" ->
+         \* site(x, k=(x := <val>)) on the method's own parameter x (= 5): the positional is read first
+         LET k == Eval(t.val, x) IN
+         IF k.err # 0 THEN k
+         ELSE Ok(k.ev \o <<(IF t.site = "N" THEN "N" ELSE "R") \o "5k" \o ToString(k.val)>>,
+                 5 + (IF t.site = "N" THEN 100 ELSE 10) + 3 * k.val)
     [] t.n = "Add" ->
          LET a == Eval(t.a, x) IN
          IF a.err # 0 THEN a
@@ -95,7 +103,7 @@ Eval(t, x) ==
 RECURSIVE NoWalrus(_)
 NoWalrus(t) ==
   CASE t.n \in {"T", "B", "X", "null"} -> TRUE
-    [] t.n = "W" -> FALSE
+    [] t.n \in {"W", "CX"} -> FALSE
     [] t.n = "C" -> NoWalrus(t.arg) /\ NoWalrus(t.kw)
     [] t.n \in {"Add", "And", "Or"} -> NoWalrus(t.a) /\ NoWalrus(t.b)
     [] t.n = "If" -> NoWalrus(t.c) /\ NoWalrus(t.a) /\ NoWalrus(t.b)
@@ -112,6 +120,7 @@ WellFormed(t, bound, d) ==
        [] t.n = "X" -> bound
        [] t.n = "C" -> /\ t.site \in {"R", "N", "S"} /\ WellFormed(t.arg, bound, d - 1)
                        /\ (IsNull(t.kw) \/ WellFormed(t.kw, bound, d - 1))
+       [] t.n = "CX" -> t.site \in {"R", "N", "S"} /\ WellFormed(t.val, bound, d - 1) /\ NoWalrus(t.val)
        [] t.n \in {"Add", "And", "Or"} -> WellFormed(t.a, bound, d - 1) /\ WellFormed(t.b, bound, d - 1)
        [] t.n = "If" -> WellFormed(t.c, bound, d - 1) /\ WellFormed(t.a, bound, d - 1) /\ WellFormed(t.b, bound, d - 1)
        [] t.n = "LC" -> /\ \A j \in DOMAIN t.items : WellFormed(t.items[j], bound, d - 1) /\ NoWalrus(t.items[j])
